@@ -146,4 +146,21 @@ def withoutExtension (p : List Char) : Option (List Char) :=
 
 def joinPaths (base : List Char) (ws : List (List Char)) : List Char := ws.foldl pushStr base
 
+/-! ### `Search::clean` (src/search.rs): the paths given with `--justfile` / `--working-directory`
+are joined to the invocation directory and cleaned by a loop of their own — a `..` removes the
+name before it and is otherwise dropped -/
+
+def searchCleanStep (acc : List Comp) (c : Comp) : List Comp :=
+  match c with
+  | .parent =>
+    match acc with
+    | .normal _ :: rest => rest
+    | _ => acc
+  | _ => c :: acc
+
+def searchCleanComps (cs : List Comp) : List Comp := (cs.foldl searchCleanStep []).reverse
+
+def searchClean (invocationDirectory p : List Char) : List Char :=
+  render (searchCleanComps (components (pushStr invocationDirectory p)))
+
 end Just.Path
